@@ -242,7 +242,9 @@ func (c *Circuit) Execute(ctx context.Context, runFunc func(context.Context) err
 // --------- only private functions below here
 
 func (c *Circuit) throttleConcurrentCommands(currentCommandCount int64) error {
-	if c.threadSafeConfig.Execution.MaxConcurrentRequests.Get() >= 0 && currentCommandCount > c.threadSafeConfig.Execution.MaxConcurrentRequests.Get() {
+	// Read the limit once: a concurrent SetConfigThreadSafe must be seen as either the old or the new value
+	maxConcurrentRequests := c.threadSafeConfig.Execution.MaxConcurrentRequests.Get()
+	if maxConcurrentRequests >= 0 && currentCommandCount > maxConcurrentRequests {
 		return errThrottledConcurrentCommands
 	}
 	return nil
@@ -282,9 +284,9 @@ func (c *Circuit) run(ctx context.Context, runFunc func(context.Context) error) 
 	}
 
 	// Set timeout on the command if we have one
-	if c.threadSafeConfig.Execution.ExecutionTimeout.Get() > 0 {
+	if executionTimeout := c.threadSafeConfig.Execution.ExecutionTimeout.Duration(); executionTimeout > 0 {
 		var timeoutCancel func()
-		expectedDoneBy = startTime.Add(c.threadSafeConfig.Execution.ExecutionTimeout.Duration())
+		expectedDoneBy = startTime.Add(executionTimeout)
 		ctx, timeoutCancel = context.WithDeadline(ctx, expectedDoneBy)
 		defer timeoutCancel()
 	}
@@ -403,7 +405,8 @@ func (c *Circuit) fallback(ctx context.Context, err error, fallbackFunc func(con
 	// Throttle concurrent fallback calls
 	currentFallbackCount := c.concurrentFallbacks.Add(1)
 	defer c.concurrentFallbacks.Add(-1)
-	if c.threadSafeConfig.Fallback.MaxConcurrentRequests.Get() >= 0 && currentFallbackCount > c.threadSafeConfig.Fallback.MaxConcurrentRequests.Get() {
+	maxConcurrentFallbacks := c.threadSafeConfig.Fallback.MaxConcurrentRequests.Get()
+	if maxConcurrentFallbacks >= 0 && currentFallbackCount > maxConcurrentFallbacks {
 		c.FallbackMetricCollector.ErrConcurrencyLimitReject(ctx, c.now())
 		return &circuitError{concurrencyLimitReached: true, msg: "throttling concurrency to fallbacks"}
 	}
